@@ -1,5 +1,6 @@
 import QcelVerif.Model.Protocols
 import QcelVerif.Model.ProtocolsElems
+import QcelVerif.Model.ProtocolsFlow
 import QcelVerif.Lib.Proto
 /-!
 Line-protocol driver for the C20 model.
@@ -14,6 +15,12 @@ Line-protocol driver for the C20 model.
   wfn    = N | R~basis~name:shape,…~ptr>target,…      R = 1 | 0 | -      basis = - | nbf^a.a.a^id=shell+shell&id=…
   shell  = s|c / L.L / nexp / r.r       shape = d x d x d  (0d = scalar array)
   rr     = f | d | shape     stdout = 0|1 (supplied?)     files = N | id.id.id   (0 is "input")
+
+THREE-WAY (A, AE, B, T lines): beside the hand-written model the driver evaluates the SOURCE-DERIVED functions of
+Model/ProtocolsFlow.lean (the validator bodies as translated from the text of the working tree, Gen/ProtocolsFlow.lean, run by
+the evaluator of Model/ProtocolsAst.lean).  When the two agree (proved for the unchanged tree in Props/C20Flow.lean) the line is
+the model's line as before; otherwise it is `FLOWDIFF hand=[…] src=[…]`, which the harness reports as a broken tie and compares
+the `src` part with the implementation.  P / PE lines run no translated validator (AtomicResultProperties only).
 
 Element-carrying ops (model `Model/ProtocolsElems.lean`, payload π = the digest token of the row-major elements):
   AE|wp|so|nf|driver|propsE|wfnE|rrE|stdout|files    and    PE|propsE
@@ -178,17 +185,32 @@ def parseBool01? (s : String) : Option Bool :=
   match trimStr s with
   | "1" => some true | "0" => some false | _ => none
 
+def showAR (r : Except Err (AROut Unit Unit)) : String :=
+  match r with
+  | .ok o =>
+    let w := match o.wfn with | none => "N" | some w => showWfn w
+    s!"ok props={showProps o.props} wfn={w} rr={showRR o.rr} stdout={if o.stdout.isSome then 1 else 0} files={showFiles o.native}"
+  | .error e => showErr e
+
+/-- hand-written model line vs source-derived line (`none` = the evaluator got stuck) -/
+def threeWay (hand : String) (src : Option String) : String :=
+  match src with
+  | some s => if s == hand then hand else s!"FLOWDIFF hand=[{hand}] src=[{s}]"
+  | none => s!"FLOWDIFF hand=[{hand}] src=[stuck]"
+
+def showBasisR (r : Except BasisErr BasisIn) : String :=
+  match r with
+  | .ok o => (match o.nbf with | some n => s!"ok {n}" | none => "ok ?")
+  | .error (.fields l) => showErr (.validation l)
+  | .error .nbfMismatch => showErr .nbfMismatch
+
 def stepA (wp so nf drv props wfn rr sout files : String) : String :=
   match parseWP? wp, parseBool01? so, parseNP? nf, parseDriver? drv, parseProps? props, parseWfn? wfn,
         parseRR? rr, parseBool01? sout, parseFiles? files with
   | some wp, some so, some nf, some drv, some props, some wfn, some rr, some sout, some files =>
     let i : ARIn Unit Unit := { wp := wp, so := so, nf := nf, driver := drv, props := props, wfn := wfn, rr := rr,
                                 stdout := if sout then some () else none, native := files }
-    match atomicResult i with
-    | .ok o =>
-      let w := match o.wfn with | none => "N" | some w => showWfn w
-      s!"ok props={showProps o.props} wfn={w} rr={showRR o.rr} stdout={if o.stdout.isSome then 1 else 0} files={showFiles o.native}"
-    | .error e => showErr e
+    threeWay (showAR (atomicResult i)) ((Src.atomicResultSrc i).map showAR)
   | _, _, _, _, _, _, _, _, _ => "bad-op"
 
 def stepC20 (line : String) : String :=
@@ -210,15 +232,13 @@ def stepC20 (line : String) : String :=
     | none => "bad-op"
   | ["B", b] =>
     match parseBasis? b with
-    | some b =>
-      match validateBasis b with
-      | .ok o => match o.nbf with | some n => s!"ok {n}" | none => "ok ?"
-      | .error (.fields l) => showErr (.validation l)
-      | .error .nbfMismatch => showErr .nbfMismatch
+    | some b => threeWay (showBasisR (validateBasis b)) ((Src.validateBasisSrc b).map showBasisR)
     | none => "bad-op"
   | ["T", pol, n] =>
     match parseTP? pol, parseNat? n with
-    | some p, some n => "ok " ++ showNatList (trajectoryProtocol p (List.range n))
+    | some p, some n =>
+      threeWay ("ok " ++ showNatList (trajectoryProtocol p (List.range n)))
+        ((Src.trajectorySrc p (List.range n)).map (fun l => "ok " ++ showNatList l))
     | _, _ => "bad-op"
   | _ => "bad-op"
 
@@ -294,6 +314,15 @@ def stepAE (wp so nf drv props wfn rr sout files : String) : String :=
   | some wp, some so, some nf, some drv, some props, some wfn, some rr, some sout, some files =>
     let i : ARInE String Unit Unit := { wp := wp, so := so, nf := nf, driver := drv, props := props, wfn := wfn, rr := rr,
                                         stdout := if sout then some () else none, native := files }
+    let h := showAR (atomicResult i.shapes)
+    let sLine := (Src.atomicResultSrc i.shapes).map showAR
+    if sLine != some h then threeWay h sLine else
+    -- the element-carrying wavefunction protocol, source-derived vs hand model
+    let showWPE : Except Err (Option (WfnE String BasisIn)) → String := fun r =>
+      match r with | .ok none => "N" | .ok (some w) => showWfnE w | .error e => showErr e
+    let eHand := match wfn with | none => "N" | some w => showWPE (wfnProtocolE wp w)
+    let eSrc := match wfn with | none => some "N" | some w => (Src.wfnProtocolESrc wp w).map showWPE
+    if eSrc != some eHand then threeWay eHand eSrc else
     match atomicResultE i with
     | .ok o =>
       let w := match o.wfn with | none => "N" | some w => showWfnE w
